@@ -285,6 +285,11 @@ type vScenario struct {
 	Gated  bool            `json:"gated"`
 	Faults map[string]string `json:"faults"` // auto mode: write number (after the handshake) -> outcome
 	Steps  [][]any         `json:"steps"`
+	// CS: critical-section level scheduling. Every call of jsonrpc2.Connection.updateInFlight waits at a gate
+	// (verif hook VerifEnter); the harness decides, seeded, which waiting critical section runs next and when the
+	// next environment action of the script is issued in between.
+	CS     bool   `json:"cs"`
+	CSSeed uint64 `json:"csseed"`
 	// RawInit (server side only): no handshake is performed; the script delivers `initialize` itself
 	// (step "init") and its handling is gated like any other handler (request tag "init").
 	RawInit bool `json:"rawinit"`
@@ -295,6 +300,52 @@ type vCallState struct {
 	cancel context.CancelFunc
 	wireID string
 	done   chan struct{}
+}
+
+type vCSWaiter struct {
+	fn string
+	ch chan struct{}
+}
+
+// csEnter is installed as jsonrpc2.VerifEnter: the goroutine parks until the scheduler releases it.
+func (r *vRun) csEnter(_ *jsonrpc2.Connection, fn string) {
+	r.csMu.Lock()
+	if !r.csOn {
+		r.csMu.Unlock()
+		return
+	}
+	w := &vCSWaiter{fn: fn, ch: make(chan struct{})}
+	r.csWait = append(r.csWait, w)
+	r.csMu.Unlock()
+	<-w.ch
+}
+
+// settle runs the SDK until quiescence. In CS mode it releases one waiting critical section at a time, chosen by the
+// seeded generator; with allowEnv it may instead decide to return early ("issue the next environment action now"),
+// leaving the remaining goroutines parked at their gates. It reports whether the state is quiescent.
+func (r *vRun) settle(allowEnv bool) bool {
+	for {
+		synctest.Wait()
+		r.csMu.Lock()
+		n := len(r.csWait)
+		if n == 0 {
+			r.csMu.Unlock()
+			return true
+		}
+		opts := n
+		if allowEnv {
+			opts++
+		}
+		i := r.csRnd.IntN(opts)
+		if i == n {
+			r.csMu.Unlock()
+			return false
+		}
+		w := r.csWait[i]
+		r.csWait = append(r.csWait[:i:i], r.csWait[i+1:]...)
+		r.csMu.Unlock()
+		close(w.ch)
+	}
 }
 
 type vRun struct {
@@ -309,6 +360,10 @@ type vRun struct {
 	mu    sync.Mutex
 	calls map[string]*vCallState
 	rel   map[string]chan struct{} // handler release gates by request tag
+	csOn    bool
+	csMu    sync.Mutex
+	csWait  []*vCSWaiter
+	csRnd   *rand.Rand
 	reqID map[string]int64         // request tag -> wire id
 	answered map[string]bool
 	nextReq int64
@@ -759,13 +814,14 @@ func (r *vRun) step(st []any) {
 			r.log.emit("notifybad.end", "n", n, "err", err != nil)
 		}()
 	case "sleep":
+		r.settle(false) // virtual time must not pass while the scheduler itself is holding goroutines back
 		d, _ := strconv.ParseFloat(arg(1), 64)
 		time.Sleep(time.Duration(d * float64(time.Second)))
 	default:
 		applied = false
 	}
-	synctest.Wait()
-	r.log.emit("step", "op", op, "a1", arg(1), "a2", arg(2), "applied", applied, "sessions", r.sessionListed())
+	quiet := r.settle(r.csOn && op != "sleep")
+	r.log.emit("step", "op", op, "a1", arg(1), "a2", arg(2), "applied", applied, "sessions", r.sessionListed(), "quiet", quiet)
 }
 
 func (r *vRun) sessionListed() bool {
@@ -828,9 +884,19 @@ func (r *vRun) run() {
 		r.log.emit("setup.error", "err", err.Error())
 		return
 	}
+	if r.sc.CS {
+		r.csMu.Lock()
+		r.csOn = true
+		r.csMu.Unlock()
+	}
 	for _, st := range r.sc.Steps {
 		r.step(st)
 	}
+	// from here on critical sections run freely again
+	r.csMu.Lock()
+	r.csOn = false
+	r.csMu.Unlock()
+	r.settle(false)
 	// drain stage 1: discharge what the environment owes, nothing else
 	r.log.emit("drain1")
 	for i := 0; i < 50; i++ {
@@ -914,7 +980,7 @@ func (r *vRun) run() {
 }
 
 func vRunScenario(t *testing.T, l *vLog, sc *vScenario) {
-	l.emit("reset", "trace", sc.ID, "side", sc.Side, "gated", sc.Gated)
+	l.emit("reset", "trace", sc.ID, "side", sc.Side, "gated", sc.Gated, "cs", sc.CS, "csseed", sc.CSSeed)
 	defer func() {
 		if p := recover(); p != nil {
 			l.emit("panic", "msg", fmt.Sprint(p))
@@ -931,6 +997,11 @@ func vRunScenario(t *testing.T, l *vLog, sc *vScenario) {
 			l.start = time.Now()
 			l.mu.Unlock()
 			r := &vRun{t: t, sc: sc, log: l, calls: map[string]*vCallState{}, rel: map[string]chan struct{}{}, reqID: map[string]int64{}, answered: map[string]bool{}}
+			r.csRnd = rand.New(rand.NewPCG(sc.CSSeed, 77))
+			jsonrpc2.VerifEnter = nil
+			if sc.CS {
+				jsonrpc2.VerifEnter = r.csEnter
+			}
 			if os.Getenv("VERIF_CS") != "0" {
 				jsonrpc2.VerifSnap = func(c *jsonrpc2.Connection, fn string, s jsonrpc2.VerifSnapshot) {
 					l.emit("cs", "fn", fn, "s", s)
@@ -948,6 +1019,9 @@ func vRandomScenario(rnd *rand.Rand, i int) *vScenario {
 	sc := &vScenario{ID: fmt.Sprintf("rand%d", i), Side: []string{"client", "server"}[rnd.IntN(2)], Gated: rnd.IntN(3) == 0, Faults: map[string]string{}}
 	if !sc.Gated && rnd.IntN(3) == 0 {
 		sc.Faults[strconv.Itoa(1+rnd.IntN(6))] = []string{"broken", "rejected", "stall"}[rnd.IntN(3)]
+	}
+	if os.Getenv("VERIF_CSMODE") == "1" && rnd.IntN(2) == 0 {
+		sc.CS, sc.CSSeed = true, rnd.Uint64()
 	}
 	n := 3 + rnd.IntN(10)
 	calls, creqs, notifs, dups, closes, waits := 0, 0, 0, 0, 0, 0
